@@ -27,6 +27,8 @@ enum Surf {
     Box(V3, V3),
     /// vertices on a sphere of some radius about the origin, whatever it is
     Platonic,
+    /// a ring about the y axis whose tube is centred on the circle of this radius (outward reference only)
+    Ring(f64),
     None,
 }
 
@@ -63,7 +65,22 @@ fn build(case: &Value) -> (Mesh<Normal3>, Surf, bool, i64) {
             use re::geom::vertex;
             use re::math::{point::pt2, vec::vec2};
             let (r, nl) = (f("r"), f("nl"));
-            let pts = if gi(case, "kind") == 0 {
+            let kind = gi(case, "kind");
+            if kind >= 2 {
+                // kind 2: a capped "room" - the side listed from top to bottom with normals facing the axis, so that
+                // every face (the caps too) looks inwards; kind 3: a ring with a triangular cross-section whose closed
+                // profile starts and ends at its sharpest corner (53 degrees), every side with its own normal
+                let (pts, capped) = if kind == 2 {
+                    (vec![vertex(pt2(r, r), vec2(-nl, 0.0)), vertex(pt2(r, 0.0), vec2(-nl, 0.0)), vertex(pt2(r, -r), vec2(-nl, 0.0))], true)
+                } else {
+                    let (a, b, c) = (pt2(2.0 * r, 0.0), pt2(r, 0.5 * r), pt2(r, -0.5 * r));
+                    (vec![vertex(a, vec2(0.5 * nl, nl)), vertex(b, vec2(0.5 * nl, nl)), vertex(b, vec2(-nl, 0.0)), vertex(c, vec2(-nl, 0.0)),
+                          vertex(c, vec2(0.5 * nl, -nl)), vertex(a, vec2(0.5 * nl, -nl))], false)
+                };
+                let l = Lathe { points: pts, sectors: g("secs"), capped, az_range: turns(0.0)..turns(1.0) };
+                return (l.build(), if kind == 2 { Surf::None } else { Surf::Ring(4.0 * r as f64 / 3.0) }, false, 0);
+            }
+            let pts = if kind == 0 {
                 vec![vertex(pt2(0.0, -0.3 * r), vec2(0.3 * nl, -nl)), vertex(pt2(r, 0.0), vec2(0.3 * nl, -nl)),
                      vertex(pt2(r, 0.0), vec2(0.3 * nl, nl)), vertex(pt2(0.0, 0.3 * r), vec2(0.3 * nl, nl))]
             } else {
@@ -201,7 +218,7 @@ pub fn exec(case: &Value) -> Value {
         let outward = match surf {
             // torus: the sum over the corners of the direction from the centre of the tube's
             // circular section through that corner (exact at the vertices, robust for few sectors)
-            Surf::Torus(rr, _) => {
+            Surf::Torus(rr, _) | Surf::Ring(rr) => {
                 let mut acc = [0.0; 3];
                 for &v in &[a, b, c] {
                     let p = pos[v];
@@ -239,7 +256,7 @@ pub fn exec(case: &Value) -> Value {
                 }
                 Surf::Box(a, b) => (0..3).all(|i| (p[i] - a[i]).abs() <= tol || (p[i] - b[i]).abs() <= tol),
                 Surf::Platonic => (len(*p) - size).abs() <= tol,
-                Surf::None => true,
+                Surf::None | Surf::Ring(_) => true,
             }) as u8
         })
         .collect();
@@ -318,6 +335,7 @@ pub fn gen(args: &Args, out: &mut dyn Write) {
             if segs <= 2 {
                 let nl = [1.0, 2.5, 0.25][secs as usize % 3];
                 emit(out, json!({"solid": "crease", "kind": segs - 1, "secs": secs, "r": r, "nl": nl, "lit": secs % 2}));
+                emit(out, json!({"solid": "crease", "kind": segs + 1, "secs": secs, "r": r, "nl": nl, "lit": 1}));
             }
             // partial azimuth ranges of the lathe (open surfaces)
             for (a0, a1) in [(0.0, 0.25), (0.0, 0.5), (0.1, 0.9), (0.25, 1.25)] {
